@@ -42,6 +42,8 @@ type Scenario struct {
 	// OnceOnly: violations are facts reported once per process by an external oracle (the race runtime de-duplicates
 	// its reports), so they cannot be confirmed by replaying the schedule.
 	OnceOnly bool
+	// FuncPoints: function entries of the repository's packages are scheduling points (needs an ovgen -funcpoints build).
+	FuncPoints bool
 }
 
 type Stats struct {
@@ -79,6 +81,7 @@ func runOnce(sc Scenario, prefix []int) (*Exec, string, []Violation, error) {
 		}
 		return c
 	}
+	vsched.DefaultFuncPoints = sc.FuncPoints
 	s, res := vsched.Run(inst.Threads, chooser, sc.SyncPoints)
 	for _, p := range s.Trace {
 		choices = append(choices, p.Chosen)
